@@ -7,8 +7,8 @@
 #include <iostream>
 
 static const char* KEYS[] = {nullptr, "A", "KEYEIGHT", "ALONGERKEYNAME", "HIERARCHKEYWITHAVERYLONGNAME0123456789", "ORDER7", "TYPEX",
-                             "lower", "Mixedlongkeyname", "", "SP ACE", "LONGKEYWITH=SIGN", "NAXIS", "D2Y0Z19"};
-static const int NKEYS = 13;
+                             "lower", "Mixedlongkeyname", "", "SP ACE", "LONGKEYWITH=SIGN", "NAXIS", "D2Y0Z19", "ORDERING_SCHEME", "PERIODICITY", "TYPE_OF_TABLE"};
+static const int NKEYS = 16;
 struct Val { char type; long i; double d; std::string s; };
 static std::vector<Val> VALS;
 static void init_vals() {
